@@ -167,10 +167,22 @@ def _where_const(ctx: Ctx, mod, name: str) -> str:
     return str(mod.path.name)
 
 
-def _fold_strs(ctx: Ctx, folder: Folder, fi: FuncInfo, e: ast.AST) -> set[str] | None:
-    """The constant string(s) an expression denotes: "x", CONST, RECORD.field, or a tuple of those."""
+def _fold_strs(ctx: Ctx, folder: Folder, fi: FuncInfo, e: ast.AST, bind: dict[str, list[ast.AST]] | None = None) -> set[str] | None:
+    """The constant string(s) an expression denotes: "x", CONST, RECORD.field, or a tuple of those. `bind` maps loop /
+    comprehension variables to the literal elements they range over (`for pattern in (A, B): ... pattern.close_delim`)."""
     if isinstance(e, ast.Constant) and isinstance(e.value, str):
         return {e.value}
+    if bind:
+        root = e.value if isinstance(e, ast.Attribute) else e
+        if isinstance(root, ast.Name) and root.id in bind:
+            out_b: set[str] = set()
+            for el in bind[root.id]:
+                sub = ast.Attribute(value=el, attr=e.attr, ctx=ast.Load()) if isinstance(e, ast.Attribute) else el
+                v = _fold_strs(ctx, folder, fi, sub)
+                if v is None:
+                    return None
+                out_b |= v
+            return out_b
     if isinstance(e, ast.Tuple):
         out: set[str] = set()
         for x in e.elts:
@@ -210,11 +222,24 @@ def _affix_tests(ctx: Ctx, folder: Folder, f: FuncInfo, depth: int = 0, seen: se
     if f.qual in seen or depth > 3:
         return out
     seen.add(f.qual)
+    # loop / comprehension variables ranging over a literal tuple or list (possibly behind a module constant)
+    bind: dict[str, list[ast.AST]] = {}
+    for x in ast.walk(f.node):
+        tgt, it = None, None
+        if isinstance(x, ast.comprehension) or isinstance(x, ast.For):
+            tgt, it = x.target, x.iter
+        if isinstance(tgt, ast.Name) and it is not None:
+            if isinstance(it, ast.Name):
+                r = ctx.repo.lookup(it.id, f.module, f)
+                if isinstance(r, ConstInfo) and isinstance(r.value, (ast.Tuple, ast.List)):
+                    it = r.value
+            if isinstance(it, (ast.Tuple, ast.List)):
+                bind[tgt.id] = list(it.elts)
     for c in walk_no_nested(f.node):
         if not isinstance(c, ast.Call):
             continue
         if isinstance(c.func, ast.Attribute) and c.func.attr in out and len(c.args) >= 1:
-            v = _fold_strs(ctx, folder, f, c.args[0])
+            v = _fold_strs(ctx, folder, f, c.args[0], bind)
             if v is not None:
                 out[c.func.attr] |= v
             continue
